@@ -68,7 +68,9 @@ pub fn gen_rw_run(check: &str, seed: u64, tier: Tier) -> Run {
         // two instances of the eq-conditioned rule in one e-graph: one where the condition holds
         // (a - a) and one where the two bindings are the same class invoked with swapped
         // arguments (a(x,y) - a(y,x)), which must NOT fire
-        let ri = pool.iter().position(|r| r.cond_eq.is_some()).unwrap();
+        let eqs: Vec<usize> = (0..pool.len()).filter(|i| pool[*i].cond_eq.is_some()).collect();
+        let ri = *w.pick(&eqs);
+        let under_let = pool[ri].name == "let2-sub-eq";
         seeded_rules.push(ri as i64);
         let (x, y) = (binder, binder + 1);
         binder += 2;
@@ -78,8 +80,16 @@ pub fn gen_rw_run(check: &str, seed: u64, tier: Tier) -> Run {
         }
         let sw: BTreeMap<S, S> = [(x, y), (y, x)].into_iter().collect();
         let tsw = t.rename_keep_binders(&sw);
+        // the two bound values (closed, different constants most of the time)
+        let e1 = random_la(&mut w, &[], 1, &mut binder);
+        let e2 = random_la(&mut w, &[], 1, &mut binder);
         let mk = |a: &Tm, b: &Tm| {
-            Tm::node("sum", vec![], vec![(vec![x], Tm::node("sum", vec![], vec![(vec![y], Tm::node("add", vec![], vec![(vec![], a.clone()), (vec![], Tm::node("neg", vec![], vec![(vec![], b.clone())]))]))]))])
+            let body = Tm::node("add", vec![], vec![(vec![], a.clone()), (vec![], Tm::node("neg", vec![], vec![(vec![], b.clone())]))]);
+            if under_let {
+                Tm::node("let", vec![], vec![(vec![x], Tm::node("let", vec![], vec![(vec![y], body), (vec![], e2.clone())])), (vec![], e1.clone())])
+            } else {
+                Tm::node("sum", vec![], vec![(vec![x], Tm::node("sum", vec![], vec![(vec![y], body)]))])
+            }
         };
         let same = mk(&t, &t);
         let swapped = mk(&t, &tsw);
